@@ -66,6 +66,10 @@ type Req struct {
 	// Dress: request attributes no plugin's decision is documented to depend on.
 	// "" | upgrade-websocket | upgrade-h2c | expect-continue | put | patch | delete | auth-header | range
 	Dress string `json:"dress,omitempty"`
+	// ExtraKeys: further X-API-Key field lines after the first (APIKey). What a plugin makes of a
+	// request with several key lines is not documented (first line, any line, refuse as
+	// ambiguous): either decision is accepted, the gating has to be consistent with it.
+	ExtraKeys []string `json:"extra_keys,omitempty"`
 }
 
 // Dresses lists the values of Req.Dress.
@@ -333,6 +337,9 @@ func Run(h http.Handler, rq Req) Observation {
 	if rq.APIKey != "" {
 		r.Header.Set("X-API-Key", rq.APIKey)
 	}
+	for _, k := range rq.ExtraKeys {
+		r.Header.Add("X-API-Key", k)
+	}
 	if rq.Gzip {
 		r.Header.Set("Accept-Encoding", "gzip")
 	}
@@ -407,15 +414,66 @@ func rejects(e Elem, rq Req) (bool, int) {
 	return false, 0
 }
 
-// Predict walks the chain outermost-first.
+// undecided: the statement does not say whether e accepts rq (several X-API-Key lines of which at
+// least one carries the configured key).
+func undecided(e Elem, rq Req) bool {
+	if e.Kind != "custom-auth" || len(rq.ExtraKeys) == 0 {
+		return false
+	}
+	if rq.APIKey == e.Key {
+		return true
+	}
+	for _, k := range rq.ExtraKeys {
+		if k == e.Key {
+			return true
+		}
+	}
+	return false // no line carries the key: rejected under every reading
+}
+
+// Predict walks the chain outermost-first (undecided elements follow the first key line).
 func Predict(chain []Elem, rq Req) Prediction {
+	return predictWith(chain, rq, func(e Elem) (bool, int) { return rejects(e, rq) })
+}
+
+// PredictAll returns one prediction per way of resolving the undecided elements (an element
+// decides the same way for every instance with the same configured key).
+func PredictAll(chain []Elem, rq Req) []Prediction {
+	var keys []string
+	seen := map[string]bool{}
+	for _, e := range chain {
+		if undecided(e, rq) && !seen[e.Key] {
+			seen[e.Key] = true
+			keys = append(keys, e.Key)
+		}
+	}
+	var out []Prediction
+	for mask := 0; mask < 1<<len(keys); mask++ {
+		reject := map[string]bool{}
+		for i, k := range keys {
+			reject[k] = mask&(1<<i) != 0
+		}
+		out = append(out, predictWith(chain, rq, func(e Elem) (bool, int) {
+			if undecided(e, rq) {
+				if reject[e.Key] {
+					return true, http.StatusUnauthorized
+				}
+				return false, 0
+			}
+			return rejects(e, rq)
+		}))
+	}
+	return out
+}
+
+func predictWith(chain []Elem, rq Req, decide func(Elem) (bool, int)) Prediction {
 	p := Prediction{RejectAt: -1}
 	p.Status = http.StatusOK
 	reqMark, rid := rq.ReqMark, 0
 	var exits []string
 	snapshot := func() string { return fmt.Sprintf("[req=%s,rid=%d]", reqMark, rid) }
 	for i, e := range chain {
-		if rej, status := rejects(e, rq); rej {
+		if rej, status := decide(e); rej {
 			p.RejectAt, p.Status = i, status
 			break
 		}
